@@ -85,6 +85,10 @@ UNITS['bqx1_2'] = dict(wrapper='w_cq.cpp', mode='lcs', unroll=1, cxxflags=['-DEL
 REALCUT = ['concurrent_monitor_baseImE4waitI', 'concurrent_monitor_baseImE6notifyI', 'concurrent_monitor_baseImE9abort_allEv']
 UNITS['bqr1_2'] = dict(wrapper='w_cq.cpp', mode='lcs', unroll=1, cxxflags=['-DELEM=1', '-DBOUNDED=1', '-DREALCPP=1', '-D__TBB_BUILD=1'], cut=REALCUT, prune=True,
                        lvalpath=True, immutable=IMMB, threads=thr('vp_thr_q', 2))
+# REALCPP=2: everything of concurrent_monitor.h real except binary_semaphore::P/V and the bounded spin of the monitor mutex
+MONCUT = ['16binary_semaphore1PEv', '16binary_semaphore1VEv', 'timed_spin_wait_until']
+UNITS['bqm1_2'] = dict(wrapper='w_cq.cpp', mode='lcs', unroll=1, cxxflags=['-DELEM=1', '-DBOUNDED=1', '-DREALCPP=2', '-D__TBB_BUILD=1'], cut=MONCUT, devirt=['sleep_node'], prune=True,
+                       lvalpath=True, immutable=IMMB, threads=thr('vp_thr_q', 2))
 UNITS['bqrf1_2'] = dict(wrapper='w_cq.cpp', mode='lcs', unroll=1, cxxflags=['-DELEM=1', '-DBOUNDED=1', '-DREALCPP=1', '-DFAULTS=1', '-D__TBB_BUILD=1'], cut=REALCUT, prune=True,
                         exceptions=True, allow_atomic=['__clang_call_terminate'], lvalpath=True, immutable=IMMB, threads=thr('vp_thr_q', 2))
 HARNESSES = [
